@@ -1,0 +1,133 @@
+//! Engine controls for deterministic scripts: rotate / flush / compaction rounds,
+//! and read-only dumps of internal bookkeeping.
+
+use std::sync::Arc;
+
+use crate::compaction::leveled::Strategy;
+use crate::compaction::{CompactionChoice, CompactionInput, CompactionStrategy};
+use crate::levels::LevelManifest;
+use crate::{Result, Tree};
+
+fn s<T>(r: Result<T>) -> std::result::Result<T, String> {
+	r.map_err(|e| e.to_string())
+}
+
+/// Rotates the active memtable (and the WAL segment) if it holds data.
+pub fn rotate(tree: &Tree) -> std::result::Result<(), String> {
+	s(tree.core.inner.rotate_memtable())
+}
+
+/// Flushes the oldest immutable memtable; returns true if one was flushed.
+pub fn flush_oldest(tree: &Tree) -> std::result::Result<bool, String> {
+	use crate::lsm::CompactionOperations;
+	let before = tree.core.inner.immutable_count();
+	s(tree.core.inner.compact_memtable())?;
+	tree.core.write_stall.signal_work_done();
+	Ok(tree.core.inner.immutable_count() < before)
+}
+
+/// Rotates if needed and flushes every immutable memtable (what `Tree::flush` does in tests).
+pub fn flush_all(tree: &Tree) -> std::result::Result<(), String> {
+	s(tree.core.inner.rotate_memtable())?;
+	s(tree.core.inner.flush_all_immutables_sync())?;
+	tree.core.write_stall.signal_work_done();
+	Ok(())
+}
+
+/// A strategy that compacts a given source level with the crate's own table selection.
+struct ForceLevel {
+	inner: Strategy,
+	level: u8,
+}
+
+impl CompactionStrategy for ForceLevel {
+	fn pick_levels(&self, manifest: &LevelManifest) -> Result<CompactionChoice> {
+		let levels = manifest.levels.get_levels();
+		let source_level = self.level;
+		if source_level as usize >= levels.len() {
+			return Ok(CompactionChoice::Skip);
+		}
+		let target_level = if source_level >= manifest.last_level_index() {
+			source_level
+		} else {
+			source_level + 1
+		};
+		let tables_to_merge = self.inner.select_tables_for_compaction(
+			&levels[source_level as usize],
+			&levels[target_level as usize],
+			source_level,
+		)?;
+		if tables_to_merge.is_empty() {
+			return Ok(CompactionChoice::Skip);
+		}
+		Ok(CompactionChoice::Merge(CompactionInput {
+			tables_to_merge,
+			source_level,
+			target_level,
+		}))
+	}
+}
+
+/// One compaction round out of `level` (into `level + 1`, or in place at the last level).
+pub fn compact_level(tree: &Tree, level: u8) -> std::result::Result<(), String> {
+	use crate::lsm::CompactionOperations;
+	let strat = ForceLevel {
+		inner: Strategy::from_options(Arc::clone(&tree.core.inner.opts)),
+		level,
+	};
+	s(tree.core.inner.compact(Arc::new(strat)))?;
+	tree.core.write_stall.signal_work_done();
+	Ok(())
+}
+
+/// One compaction round as the background task would choose it.
+pub fn compact_auto(tree: &Tree) -> std::result::Result<(), String> {
+	use crate::lsm::CompactionOperations;
+	let strat = Strategy::from_options(Arc::clone(&tree.core.inner.opts));
+	s(tree.core.inner.compact(Arc::new(strat)))?;
+	tree.core.write_stall.signal_work_done();
+	Ok(())
+}
+
+/// Per level: (table id, smallest user key, largest user key, smallest seq, largest seq).
+pub fn levels(tree: &Tree) -> Vec<Vec<(u64, Vec<u8>, Vec<u8>, u64, u64)>> {
+	let m = tree.core.inner.level_manifest.read().unwrap();
+	m.levels
+		.get_levels()
+		.iter()
+		.map(|l| {
+			l.tables
+				.iter()
+				.map(|t| {
+					(
+						t.id,
+						t.meta.smallest_point.as_ref().map(|k| k.user_key.clone()).unwrap_or_default(),
+						t.meta.largest_point.as_ref().map(|k| k.user_key.clone()).unwrap_or_default(),
+						t.meta.smallest_seq_num.unwrap_or(0),
+						t.meta.largest_seq_num.unwrap_or(0),
+					)
+				})
+				.collect()
+		})
+		.collect()
+}
+
+/// Registered snapshot horizons, ascending.
+pub fn snapshots(tree: &Tree) -> Vec<u64> {
+	tree.core.inner.snapshot_tracker.get_all_snapshots()
+}
+
+/// The visibility horizon.
+pub fn visible_seq(tree: &Tree) -> u64 {
+	tree.core.seq_num()
+}
+
+/// Number of immutable memtables waiting for flush.
+pub fn immutable_count(tree: &Tree) -> usize {
+	tree.core.inner.immutable_count()
+}
+
+/// A transaction's snapshot horizon.
+pub fn txn_start_seq(tx: &crate::Transaction) -> u64 {
+	tx.start_seq_num
+}
